@@ -30,6 +30,14 @@ def extra(ctx, res):
     })
     with res.guard("RC.check_layer_registryctx, res"):
         RC.check_layer_registry(ctx, res)
+    # aggregated_hypergraph builds its result through Hypergraph.add_edge and hands it the multiplex's own per-record metadata
+    # dicts: "aggregation leaves the multiplex unchanged" rests on Hypergraph.add_edge never updating a stored dict in place
+    from ._containers import PATH_RULES
+
+    for r_ in ("P-FRESH", "P-EMETA", "P-ACCUM", "P-ID", "P-ADJ1"):
+        res.rules.setdefault(r_, PATH_RULES.get(r_, r_))
+    with res.guard("RC.check_add_edge(ctx, res, Hypergraph) - the insertion primitive of aggregated_hypergraph"):
+        RC.check_add_edge(ctx, res, "Hypergraph")
     with res.guard("check_uniqctx, res, cls, LAYER"):
         check_uniq(ctx, res, cls, "LAYER")
     eff = Effects(ctx)
